@@ -700,13 +700,25 @@ package rewriter
 //@   loop #3 invariant forall j: Int :: 0 <= j && j < _idx ==> args[j].Name == params[j].Name && objectOf(args[j]) == objectOf(params[j])
 //@   ensures[local:positional] ok ==> len(args) == len(params) && (forall j: Int :: 0 <= j && j < len(args) ==> args[j].Name == params[j].Name && objectOf(args[j]) == objectOf(params[j]))
 
+//@ pred IsGenericFuncObj(o types.Object) := IsSignature(funcType(ptr(o))) && tplLen(sigTParams(ptr(funcType(ptr(o))))) > 0
+
 //@ func stableCallee(ctx, lit) (ok)
 //@   requires EtaShape(lit)      -- guaranteed by the matcher pattern the callback is registered for (assumed contract of go-matcher)
 //@   ensures[declared-func] ok ==> IsDeclaredFunc(calleeOf(as(as(lit.Body.List[0], ReturnStmt).Results[0], CallExpr)))
+//@   -- D21: a generic function is a value only when explicitly instantiated
+//@   ensures[instantiated] ok ==> !IsGenericFuncObj(calleeOf(as(as(lit.Body.List[0], ReturnStmt).Results[0], CallExpr)))
+//@        || isa(as(as(lit.Body.List[0], ReturnStmt).Results[0], CallExpr).Fun, IndexExpr)
+//@        || isa(as(as(lit.Body.List[0], ReturnStmt).Results[0], CallExpr).Fun, IndexListExpr)
 //@   -- D6 (method value): f in `func() T { return s.m() }` -> `s.m` binds the receiver when the closure is created, not when it is called
 //@   ensures[stable-receiver] ok ==> !BindsReceiverEarly(as(as(lit.Body.List[0], ReturnStmt).Results[0], CallExpr).Fun)
 //@   ensures[same-type] ok ==> TypesIdentical(typeOfExpr(lit), typeOfExpr(as(as(lit.Body.List[0], ReturnStmt).Results[0], CallExpr).Fun))
 
+//@ extern (*types.object).Type(f) (t)
+//@   ensures t == funcType(f)
+//@ extern (*types.Signature).TypeParams(sg) (l)
+//@   ensures l == sigTParams(sg)
+//@ extern (*types.TypeParamList).Len(l) (n)
+//@   ensures n == tplLen(l) && n >= 0
 //@ extern types.Identical(a, b) (r)
 //@   ensures r == TypesIdentical(a, b)
 
